@@ -4,3 +4,4 @@ pub mod refjson;
 pub mod refs;
 pub mod refscale;
 pub mod regspace;
+pub mod valuetree;
